@@ -8,7 +8,7 @@
 D=$(cd "$1" && pwd); PROP=$2; TIER=${3:-quick}
 NAME=$(basename $D)
 WT=/tmp/wt_seed_$NAME
-OUT=/tmp/seed_eval/$NAME
+OUT=${EVAL_TMP:-/tmp/seed_eval}/$NAME
 rm -rf $OUT; mkdir -p $OUT
 git -C /repo worktree remove --force $WT 2>/dev/null
 git -C /repo worktree add --detach $WT HEAD >/dev/null 2>&1 || { echo "$NAME worktree failed"; exit 2; }
@@ -26,6 +26,6 @@ KINDS=$(grep '^VIOLATION' $OUT/check.txt | sed 's/.*kind=\([^ ]*\) sig=\([^ ]*\)
 git -C /repo worktree remove --force $WT
 python3 - <<EOF
 import json
-json.dump({"name":"$NAME","property":"$PROP","tier":"$TIER","suite":"""$SUITE""","demo_exit_unchanged":"$DC","demo_exit_changed":"$DM","check_exit":$CK,"violation_kinds":"""$KINDS"""}, open("$D/eval.json","w"), indent=1)
+json.dump({"name":"$NAME","property":"$PROP","tier":"$TIER","suite":"""$SUITE""","demo_exit_unchanged":"$DC","demo_exit_changed":"$DM","check_exit":$CK,"violation_kinds":"""$KINDS"""}, open("$D/${EVAL_OUT:-eval.json}","w"), indent=1)
 EOF
 echo "$NAME prop=$PROP suite=[$SUITE] demo(clean/mut)=$DC/$DM check_exit=$CK kinds=$KINDS"
